@@ -354,15 +354,18 @@ structure FreshSw (sw : SwitchR) (operand : Str) (rn : Option Str) (wait : Optio
   cats : sw.cats = []
   dflt : sw.dflt.dest = Dest.none
   nr : ∀ nr, sw.noResp = some nr → nr.dest = Dest.none
+  dname : sw.dflt.name = "Other".toList
+  nrname : ∀ nr, sw.noResp = some nr → nr.name = "No Response".toList
 
 theorem newSwitch_fresh (operand : Str) (rn : Option Str) (wait : Option Nat) (s : St) :
     wp (newSwitch operand rn wait) s (fun sw s' => (∃ k, Bump s s' k) ∧ FreshSw sw operand rn wait) := by
   rw [wp_newSwitch]
   rcases wait with _ | _ | m
-  · exact ⟨⟨2, rfl⟩, ⟨rfl, rfl, rfl, by simp, rfl, rfl, rfl, by intro nr h; cases h⟩⟩
-  · exact ⟨⟨2, rfl⟩, ⟨rfl, rfl, rfl, by simp, rfl, rfl, rfl, by intro nr h; cases h⟩⟩
-  · refine ⟨⟨4, rfl⟩, ⟨rfl, rfl, rfl, by simp, rfl, rfl, rfl, ?_⟩⟩
-    intro nr h; simp only [Option.some.injEq] at h; subst h; rfl
+  · exact ⟨⟨2, rfl⟩, ⟨rfl, rfl, rfl, by simp, rfl, rfl, rfl, (by intro nr h; cases h), rfl, (by intro nr h; cases h)⟩⟩
+  · exact ⟨⟨2, rfl⟩, ⟨rfl, rfl, rfl, by simp, rfl, rfl, rfl, (by intro nr h; cases h), rfl, (by intro nr h; cases h)⟩⟩
+  · refine ⟨⟨4, rfl⟩, ⟨rfl, rfl, rfl, by simp, rfl, rfl, rfl, ?_, rfl, ?_⟩⟩
+    · intro nr h; simp only [Option.some.injEq] at h; subst h; rfl
+    · intro nr h; simp only [Option.some.injEq] at h; subst h; rfl
 
 theorem not_basic_w : basicTypes.contains "wait_for_response".toList = false := by decide
 theorem not_basic_v : basicTypes.contains "split_by_value".toList = false := by decide
@@ -567,5 +570,65 @@ theorem buckets_tgt (es : List OutEdge) : ∀ b ∈ (bucketsOf es).1, ∃ e ∈ 
     intro b hb
     obtain ⟨e', he', h'⟩ := ih b hb
     exact ⟨e', by simp [he'], h'⟩
+
+/-! ### category names -/
+
+theorem genCatName_go_eq (r : SwitchR) : ∀ (fuel : Nat) (n : Str),
+    genCatName.go r fuel n = genName.go (r.allCats.map (·.name)) fuel n := by
+  intro fuel
+  induction fuel with
+  | zero => intro n; rfl
+  | succ f ih =>
+    intro n
+    unfold genCatName.go genName.go
+    have : (r.catByName n).isSome = (r.allCats.map (·.name)).contains n := by
+      cases h : (r.allCats.map (·.name)).contains n
+      · cases h2 : (r.catByName n).isSome
+        · rfl
+        · have := (catByName_isSome_iff r n).mp h2
+          rw [← List.contains_iff_mem, h] at this; cases this
+      · exact (catByName_isSome_iff r n).mpr (List.contains_iff_mem.mp h)
+    rw [this, ih]
+
+/-- the generated category name depends on the names in use only -/
+theorem genCatName_eq (r : SwitchR) (args : List (Option Str)) :
+    genCatName r args = genName (r.allCats.map (·.name)) args := by
+  unfold genCatName genName
+  rw [genCatName_go_eq]
+  simp
+
+theorem namesFrom_append (k : Kind) (tmo : Nat) : ∀ (l1 l2 : List OutEdge) (tn : List Str),
+    namesFrom k tmo tn (l1 ++ l2) = namesFrom k tmo (namesFrom k tmo tn l1) l2 := by
+  intro l1
+  induction l1 with
+  | nil => intro l2 tn; rfl
+  | cons e l1 ih => intro l2 tn; simp only [List.cons_append, namesFrom]; exact ih l2 _
+
+theorem namesOk_append (k : Kind) (tmo : Nat) : ∀ (l1 l2 : List OutEdge) (tn : List Str),
+    namesOk k tmo tn (l1 ++ l2) = (namesOk k tmo tn l1 && namesOk k tmo (namesFrom k tmo tn l1) l2) := by
+  intro l1
+  induction l1 with
+  | nil => intro l2 tn; simp [namesOk, namesFrom]
+  | cons e l1 ih =>
+    intro l2 tn
+    simp only [List.cons_append, namesOk, namesFrom, ih, Bool.and_assoc]
+
+/-- names stay fresh on a prefix -/
+theorem namesOk_prefix (k : Kind) (tmo : Nat) (l L : List OutEdge) (h : l <+: L) (hok : namesOk k tmo [] L = true) :
+    namesOk k tmo [] l = true := by
+  obtain ⟨t, rfl⟩ := h
+  rw [namesOk_append, Bool.and_eq_true] at hok
+  exact hok.1
+
+/-- the last test of a list with fresh names: its explicit name is not in use -/
+theorem namesOk_last (k : Kind) (tmo : Nat) (l : List OutEdge) (e : OutEdge) (hok : namesOk k tmo [] (l ++ [e]) = true)
+    (hne : e.cond.name ≠ []) : e.cond.name ∉ namesFrom k tmo [] l ++ baseNames k tmo := by
+  rw [namesOk_append, Bool.and_eq_true] at hok
+  have h2 := hok.2
+  simp only [namesOk, Bool.and_true, Bool.or_eq_true, Bool.not_eq_true', List.isEmpty_iff] at h2
+  rcases h2 with h2 | h2
+  · exact absurd h2 hne
+  · intro hm
+    rw [List.contains_iff_mem.mpr hm] at h2; cases h2
 
 end Rpft.CoreSheet
